@@ -76,6 +76,64 @@ def run(ck):
             wit.append({'kind': 'letters-not-respelled', 'b': b, 'rows_b': rows_b})
         elif a['seqs'] != b['seqs'] and any('-' in r for r in rows_a):
             ck.nontriv({'a': a['seqs'], 't': a['type']})
+    # ---- the file entry point, with records that share name AND length (nothing but the residues could order them):
+    #      the canonical order, hence the gap pattern, must not look at the spelling; also several input files
+    import os, tempfile, shutil
+    tmpd = tempfile.mkdtemp(prefix='kv_c14_')
+    try:
+        flines, fmeta = [], []
+        for k in range(40 if ck.tier == 'quick' else 300):
+            kind = 'dna' if k % 2 == 0 else 'protein'
+            alpha = 'ACGTN' if kind == 'dna' else gen.PROT
+            L = rng.range(12, 40)
+            root = gen.rand_seq(rng, alpha, L)
+            tail = '' if kind == 'dna' else 'WKW'
+            def fit(x):
+                x = x[:L]
+                return x + gen.rand_seq(rng, alpha, L - len(x))
+            twins = [fit(gen.mutate(rng, root, alpha, 25, 12)) + tail, fit(gen.rand_seq(rng, alpha, 3) + gen.mutate(rng, root, alpha, 25, 12)) + tail]
+            others = [gen.mutate(rng, root, alpha, 12, 8) + tail for _ in range(rng.range(2, 6))]
+            names = ['twin', 'twin'] + ['o%d' % i for i in range(len(others))]
+            seqs = twins + others
+            order = list(range(len(seqs))); rng.shuffle(order)
+            names = [names[i] for i in order]; seqs = [seqs[i] for i in order]
+            alt = [respell(rng, x, kind) for x in seqs]
+            if kind == 'dna' and k % 3 == 2:
+                # several input files and IUPAC ambiguity codes in lower case (about 8% of the residues): the histograms of the
+                # files are merged and the kind is detected again; the all-upper spelling must be treated alike
+                def amb(x):
+                    x = list(x)
+                    for i in range(len(x)):
+                        if rng.chance(2, 25): x[i] = rng.choice('rykmswdhv')
+                    return ''.join(x)
+                seqs = [amb(x) for x in seqs]
+                alt = [x.upper() for x in seqs]
+            for tag, ss in (('a', seqs), ('b', alt)):
+                if k % 3 == 2:      # split over two input files
+                    cut = len(ss) // 2
+                    ins = [os.path.join(tmpd, 'in%d%s_%d.fa' % (k, tag, j)) for j in (0, 1)]
+                    open(ins[0], 'w').write(gen.fasta(names[:cut], ss[:cut])); open(ins[1], 'w').write(gen.fasta(names[cut:], ss[cut:]))
+                else:
+                    ins = [os.path.join(tmpd, 'in%d%s.fa' % (k, tag))]
+                    open(ins[0], 'w').write(gen.fasta(names, ss))
+                outp = os.path.join(tmpd, 'out%d%s.fa' % (k, tag))
+                flines.append('runfile 0 %d 5 %d %d %d fasta %s %s' % (rng.choice([1, 4]), gen.NG, gen.NG, gen.NG, outp, ' '.join(ins)))
+            fmeta.append((kind, names, seqs, alt, os.path.join(tmpd, 'out%da.fa' % k), os.path.join(tmpd, 'out%db.fa' % k)))
+            ck.count('file entry point: twins (same name and length)%s' % (', two files' if k % 3 == 2 else ''))
+        fres = ck.run_lines(kvh, flines, timeout=1200)
+        ck.evaluations += len(flines)
+        for k, (kind, names, seqs, alt, oa, ob) in enumerate(fmeta):
+            ra, rb = fres[2 * k], fres[2 * k + 1]
+            if not (ra.startswith('OK') and rb.startswith('OK') and os.path.exists(oa) and os.path.exists(ob)):
+                if ra.startswith('OK') != rb.startswith('OK'):
+                    wit.append({'kind': 'accepted-vs-rejected', 'entry': 'file', 'names': names, 'a': seqs, 'b': alt, 'impl_a': ra[:200], 'impl_b': rb[:200]})
+                continue
+            rows_a = gen.parse_fasta(open(oa, encoding='latin-1').read())[1]; rows_b = gen.parse_fasta(open(ob, encoding='latin-1').read())[1]
+            pat = lambda rows: [''.join('-' if ch == '-' else 'x' for ch in r) for r in rows]
+            if pat(rows_a) != pat(rows_b):
+                wit.append({'kind': 'gap-pattern-differs', 'entry': 'file', 'names': names, 'a': seqs, 'b': alt, 'rows_a': rows_a, 'rows_b': rows_b})
+    finally:
+        shutil.rmtree(tmpd, ignore_errors=True)
     if meta:
         ck.sample({'original': meta[0][0]['seqs'], 'respelled': meta[0][1]['seqs'], 'implementation_original': impl[0][:200], 'implementation_respelled': impl[1][:200]})
     for w in wit[:3]:
